@@ -12,7 +12,13 @@ Open Scope Z_scope.
 Inductive case14 :=
 | mk14 (c_alg : N) (c_flt : bool) (c_ws : list Z) (c_p0 : list N) (c_impl : impl_res) (c_cnt : N) (c_after : list N)
 (* genuine binary64 weights (bit patterns); run on a rayon pool of one thread *)
-| mk14f (c_alg : N) (c_wbits : list N) (c_p0 : list N) (c_impl : impl_res) (c_cnt : N) (c_after : list N).
+| mk14f (c_alg : N) (c_wbits : list N) (c_p0 : list N) (c_impl : impl_res) (c_cnt : N) (c_after : list N)
+(* LARGE input (thousands of weights), described by the parameters of a generator that the harness and
+   [gen14] share; the output array is given by its difference from the input array (index, new id),
+   indices increasing.  c_status: 0 = Ok, 2 = error, 3 = panic, 4 = hang.  Judged by the certified
+   checker only (the model is not run on inputs of this size). *)
+| mk14L (c_alg : N) (c_flt : bool) (c_n c_k c_t c_wmax c_mult c_seed c_mode : N)
+        (c_status : N) (c_diff : list (N * N)).
 
 Definition res2_eqb (a b : res (list N * N)) : bool :=
   match a, b with
@@ -117,10 +123,48 @@ Definition eval14i (c_alg : N) (c_flt : bool) (ws : list Z) (p0 : list N) (c_imp
              | IErr 1 _ _ => 1 | IErr 2 _ _ => 2 | IErr _ _ _ => 6 | IPanic => 3 | IHang => 4 end%N in
   {| corr_ok := corr && res2_eqb rW r; prop_ok := prop; cls := cls |}.
 
+(* ---- the large family ----
+   x' = (x * 1103515245 + 12345) mod 2^31, r = x' / 2^16 (15 bits).
+   element i: weight 1 + r mod wmax (times [mult] in the last [t] positions), then a part id:
+   mode 0: r mod k everywhere;  mode 1: r mod (k-1) in the head, k-1 in the tail (all of the last
+   part's weight sits in the tail). *)
+Definition lcg (x : N) : N := N.land (x * 1103515245 + 12345) 2147483647.
+Definition gen14 (n k t wmax mult seed mode : N) : list Z * list N :=
+  let step (st : N * N * list Z * list N) :=
+    let '(x, i, ws, ps) := st in
+    let x1 := lcg x in
+    let tail := (n - t <=? i)%N in
+    let w := (1 + (N.shiftr x1 16) mod wmax)%N in
+    let w := if tail then (w * mult)%N else w in
+    let x2 := lcg x1 in
+    let r := N.shiftr x2 16 in
+    let q := if (mode =? 0)%N then (r mod k)%N else if tail then (k - 1)%N else (r mod (k - 1))%N in
+    (x2, (i + 1)%N, Z.of_N w :: ws, q :: ps) in
+  let '(_, _, ws, ps) := N.iter n step (seed, 0%N, [], []) in
+  (rev ws, rev ps).
+
+Fixpoint patch (i : N) (p : list N) (d : list (N * N)) : list N :=
+  match p with
+  | [] => []
+  | x :: t =>
+    match d with
+    | [] => p
+    | (j, v) :: d' => if (j =? i)%N then v :: patch (i + 1) t d' else x :: patch (i + 1) t d
+    end
+  end.
+
+Definition eval14L (n k t wmax mult seed mode status : N) (diff : list (N * N)) : verdict :=
+  let '(ws, p0) := gen14 n k t wmax mult seed mode in
+  let p' := patch 0 p0 diff in
+  let prop := if (status =? 0)%N then check_vn ws p0 p' else false in
+  {| corr_ok := true; prop_ok := prop;
+     cls := if (status =? 0)%N then 9%N else if (status =? 3)%N then 3%N else if (status =? 4)%N then 4%N else 6%N |}.
+
 Definition eval14 (c : case14) : verdict :=
   match c with
   | mk14 a f ws p0 i n af => eval14i a f ws p0 i n af
   | mk14f a wb p0 i n af => eval14f a wb p0 i n af
+  | mk14L _ _ n k t wmax mult seed mode st d => eval14L n k t wmax mult seed mode st d
   end.
 
 Definition run14 (cs : list case14) := report (map eval14 cs).
